@@ -280,7 +280,8 @@ def main(chk: core.Check) -> int:
     chk.coverage["rule"] = "evaluations = generated layouts (depth 1-4, empty lists) through _extract_index/flatten vs the Lean model, plus track lists in generated layouts x pivot forms compared per track with helix_obj"
     chk.assumptions += ["awkward's own layout transformations (unflatten, slicing, zip) are third-party and only exercised; masked / union layouts are not generated",
                         "float results compared at 1e-9 relative to the track scale; branch-boundary inputs excluded as in C06"]
-    chk.prove(modules=["C07", "Nested"])
+    hc.regen(chk)
+    chk.prove(modules=["C07", "Nested", "HelixTie"])
     try:
         diffs = layouts_vs_model(chk, 1500 if thorough else 250)
         chk.coverage["traces_validated_against_impl"] = chk.evals
